@@ -76,6 +76,8 @@ fn err_class(e: &ConfigError) -> &'static str {
         ConfigError::Incompatible { .. } => "Incompatible",
         ConfigError::InvalidFrontendConfig(_) => "InvalidFrontendConfig",
         ConfigError::InvalidHealthCheck { .. } => "InvalidHealthCheck",
+        ConfigError::DuplicateFrontend { .. } => "DuplicateFrontend",
+        ConfigError::DuplicateBackend { .. } => "DuplicateBackend",
         ConfigError::InvalidPath(_) => "InvalidPath",
         ConfigError::ListenerAddressAlreadyInUse(_) => "ListenerAddressAlreadyInUse",
         ConfigError::Missing(_) => "Missing",
@@ -365,39 +367,8 @@ struct Loaded {
 
 fn oracle(d: &Decl, ld: &Loaded, pool: &Pool, out: &mut Out) {
     let s = &ld.state;
-    // declarations the loader is known not to check (open findings): the same frontend / backend twice
-    let proto_of0: BTreeMap<&str, i128> = d.clusters.iter().map(|c| (c.0.as_str(), c.1)).collect();
-    let mut seen_f = BTreeSet::new();
-    let mut dup_front = false;
-    for f in &d.fronts {
-        let http = proto_of0.get(f.0.as_str()) == Some(&0);
-        let key = if http {
-            format!("h;{};{:?};{};{:?};{:?}", f.1, f.2, if f.3.is_some() { f.4.max(0) } else { 0 }, f.3, f.5)
-        } else {
-            format!("t;{};{}", f.0, f.1)
-        };
-        if !seen_f.insert(key) {
-            dup_front = true;
-        }
-    }
-    let mut seen_b = BTreeSet::new();
-    let mut dup_back = false;
-    for b in &d.backends {
-        if b.2.is_some() && !seen_b.insert((b.0.clone(), b.1.clone(), b.2.clone())) {
-            dup_back = true;
-        }
-    }
-    if dup_front {
-        out.viol("dup-frontend-accepted", "the file declares the same frontend twice and the loader accepted it (the second Add*Frontend is rejected by the state)");
-    }
-    if dup_back {
-        out.viol("dup-backend-merged", "the file declares the same (backend_id, address) twice and the loader accepted it (the state keeps one backend)");
-    }
     // 1. every generated message is accepted by a fresh instance
     for (m, r) in ld.msgs.iter().zip(&ld.results) {
-        if dup_front && matches!(r, Err(StateError::Exists { .. })) {
-            continue;
-        }
         if let Err(e) = r {
             out.viol("rejected-message", &format!("{} rejected by a fresh ConfigState: {e}", m.id));
             break;
@@ -478,7 +449,7 @@ fn oracle(d: &Decl, ld: &Loaded, pool: &Pool, out: &mut Out) {
         + s.https_fronts.len()
         + s.tcp_fronts.values().map(|v| v.len()).sum::<usize>()
         + s.udp_fronts.values().map(|v| v.len()).sum::<usize>();
-    if n_fronts != d.fronts.len() && !dup_front {
+    if n_fronts != d.fronts.len() {
         out.viol("exact-frontends", &format!("declared {} frontends, state has {}", d.fronts.len(), n_fronts));
     }
     let proto_of: BTreeMap<&str, i128> = d.clusters.iter().map(|c| (c.0.as_str(), c.1)).collect();
@@ -504,7 +475,7 @@ fn oracle(d: &Decl, ld: &Loaded, pool: &Pool, out: &mut Out) {
         }
     }
     let n_back: usize = s.backends.values().map(|v| v.len()).sum();
-    if n_back != d.backends.len() && !dup_back {
+    if n_back != d.backends.len() {
         out.viol("exact-backends", &format!("declared {} backends, state has {}", d.backends.len(), n_back));
     }
     for (cl, addr, _id) in &d.backends {
@@ -681,14 +652,18 @@ fn run(case: &Case, out: &mut Out) {
     let _ = std::fs::remove_file(&path);
 }
 
-/// `FileConfig::load_from_path` prints TOML errors with `println!`: keep the
-/// protocol on a private copy of stdout and send fd 1 to /dev/null.
+/// `FileConfig::load_from_path` prints TOML errors with `println!`: the protocol goes to
+/// $VERIF_OUT (or to a private copy of stdout) and fd 1 is sent to /dev/null.
 fn main() {
     use std::io::Write;
     use std::os::fd::FromRawFd;
     let saved = unsafe { libc::dup(1) };
     let null = std::fs::OpenOptions::new().write(true).open("/dev/null").unwrap();
     unsafe { libc::dup2(std::os::fd::AsRawFd::as_raw_fd(&null), 1) };
+    if std::env::var_os("VERIF_OUT").is_some() {
+        drive(run);
+        return;
+    }
     let mut w = std::io::BufWriter::new(unsafe { std::fs::File::from_raw_fd(saved) });
     let path = std::env::args().nth(1).expect("usage: c20 <cases-file>");
     let cases = read_cases(&path);
